@@ -183,6 +183,37 @@ def jump_patterns(tab):
     return out
 
 
+def opcode_sweeps(tab, chunk=24):
+    """Fixed item lists in which EVERY assemblable opcode of the version occurs once (grouped by operand kind): random
+    draws leave rare opcodes of a 13-example stratum untouched for many runs."""
+    by_kind = {}
+    for nme in tab.names:
+        by_kind.setdefault(tab.kind(nme), []).append(nme)
+    pad = "NOP" if "NOP" in tab.opmap else "POP_TOP"
+    out = []
+    for kind in ("jump", "table", "enum", "free", "none"):
+        names = sorted(by_kind.get(kind, []))
+        for at in range(0, len(names), chunk):
+            items = []
+            for j, nme in enumerate(names[at:at + chunk]):
+                it = {"op": nme, "arg": None, "pre": 0, "to": None}
+                if kind == "jump":
+                    it["arg"] = 0
+                    it["to"] = (2 * j + 3) if j % 2 == 0 else 0           # forward onto a later item / back to the start
+                elif kind == "table":
+                    it["arg"] = min(tab.table_limit(nme), 1 + j)
+                elif kind == "enum":
+                    it["arg"] = min(ENUMERATED[nme] - 1, 1)
+                elif kind == "free":
+                    it["arg"] = 2 + j
+                items.append(it)
+                if kind == "jump" and pad in tab.opmap:
+                    items.append({"op": pad, "arg": None, "pre": 0, "to": None})
+            if items:
+                out.append(items)
+    return out
+
+
 def none_linetable(ncodeunits):
     """3.11+ location table saying 'no location' for every code unit"""
     out = bytearray()
